@@ -5,7 +5,7 @@ set -e
 P="$1"; shift
 T=$(mktemp -d /tmp/tlint-mut.XXXXXX)
 trap 'rm -rf "$T"' EXIT
-cp -r /repo/tracklib "$T/tracklib"
+cp -r /repo/tracklib "$T/tracklib"; cp -r /repo/resources "$T/resources"
 case "$P" in
   -R:*) git -C /repo show "${P#-R:}" -- tracklib | (cd "$T" && patch -s -R -p1) ;;
   *) P=$(readlink -f "$P"); (cd "$T" && patch -s -p1 < "$P") ;;
